@@ -11,7 +11,7 @@ RULE = ("seeded programs of 1-6 concurrently running activities executing chains
         "`until(time + G)`. Non-trivial = the program contains a wait on a date that is now, "
         "past or infinite, or a never-resuming wait; distinct = distinct per-actor sequence of "
         "(event, time).")
-BUDGET = {"quick": {"cases": 90000, "wall_s": 100, "chunk": 250},
+BUDGET = {"quick": {"cases": 90000, "wall_s": 240, "chunk": 250},
           "thorough": {"cases": 1200000, "wall_s": 1500, "chunk": 500}}
 ASSUMPTIONS = ["dates are dyadic rationals, so float arithmetic of the clock is exact",
                "events that coincide with the deadline of an enclosing until-block may or may "
